@@ -500,10 +500,15 @@ def plan(ck):
              [["--mode", "random", "--only", "/n3/", "--max", "100", "--seed", seed]], "n3"),
         ], ck.tier)
     return with_yield_passes([
-        ("n=1 all forms, one injected spurious weak-CAS failure per execution, exhaustive DFS",
-         [["--mode", "dfs", "--only", "/n1" + p, "--max", "3000000", "--weak", "1"] for p in parts], "n1"),
-        ("n=2 all forms, one injected spurious weak-CAS failure per execution, DFS with preemption bound 3",
-         [["--mode", "dfs", "--only", "/n2" + p, "--pb", "3", "--max", "3000000", "--weak", "1"] for p in parts], "n2"),
+        ("n=1 all forms, exhaustive DFS",
+         [["--mode", "dfs", "--only", "/n1" + p, "--max", "3000000"] for p in parts], "n1"),
+        ("n=2 all forms, DFS with preemption bound 3",
+         [["--mode", "dfs", "--only", "/n2" + p, "--pb", "3", "--max", "3000000"] for p in parts], "n2"),
+        # the quick tier's two batches with one injected spurious weak-CAS failure per execution, exactly as they are run there
+        ("n=1 all forms, one injected spurious weak-CAS failure per execution, exhaustive DFS (ticker scenarios only for wf/wu with later-kind 0)",
+         [["--mode", "dfs", "--only", "/n1" + p, "--param", "light=1", "--weak", "1"] for p in parts], "n1"),
+        ("n=2 all forms, one injected spurious weak-CAS failure per execution, DFS with preemption bound 2",
+         [["--mode", "dfs", "--only", "/n2" + p, "--pb", "2", "--max", "100000", "--weak", "1"] for p in parts], "n2"),
         ("n=2 selected scenarios (%s), unbounded exhaustive DFS" % ", ".join(N2_FULL),
          [["--mode", "dfs", "--exact", x, "--max", "100000000"] for x in N2_FULL], "n2x"),
         ("n=3 all forms, seeded random walks",
